@@ -3,6 +3,7 @@ import FiberModel.C11.Spec
 import FiberModel.C18.Spec
 import FiberModel.C18.Pool
 import FiberModel.C18.History
+import FiberModel.C18.Malformed
 /-
 Driver for C18. Case shapes (after the id):
   asm   base url method cH rH cQ rQ cC rC cP rP jarC cUA rUA cRef rRef cTO rTO bodyKind body form files delay  implObs
@@ -291,13 +292,27 @@ def hostOK (s : Bytes) : Bool :=
   decide ((s.filter (· == 58)).length ≤ 1)
 def pathOK (s : Bytes) : Bool := s.all fun c => isAlpha c || isDigit c || c == 47
 
-def parseSetCookie (s : String) : Option Cookie :=
-  match s.splitOn "~" with
-  | [n, v, p, e] => do
-    let n ← unPart n; let v ← unPart v; let p ← unPart p; let e ← expOf e
-    if n.isEmpty || !plainOK n || !plainOK v || !pathOK p then none
-    some { name := n, value := v, path := p, expiry := e }
-  | _ => none
+/-- `name~value~path~exp[~mal]`: `mal` = e0 e1 e2 (the unparsable attribute stands directly behind `name=value`) or
+    l0 l1 l2 (at the end of the line); the digit picks the attribute (`Max-Age=abc`, `Max-Age=-1`, `Expires=notadate` —
+    `Cookie.ParseBytes` fails on all three alike) -/
+def malOf (s : String) : Option Mal :=
+  if s == "e0" || s == "e1" || s == "e2" then some .early
+  else if s == "l0" || s == "l1" || s == "l2" then some .late else none
+
+def parseSetCookie (s : String) : Option SetItem := do
+  let (n, v, p, e, m) ← match s.splitOn "~" with
+    | [n, v, p, e] => some (n, v, p, e, Mal.none)
+    | [n, v, p, e, m] => (malOf m).map fun m => (n, v, p, e, m)
+    | _ => none
+  let n ← unPart n; let v ← unPart v; let p ← unPart p; let e ← expOf e
+  if n.isEmpty || !plainOK n || !plainOK v || !pathOK p then none
+  some { cookie := { name := n, value := v, path := p, expiry := e }, mal := m }
+
+/-- the `Set-Cookie` lines of an `R` op string (`[]` for every other op) -/
+def respItemsOf (s : String) : List SetItem :=
+  match s.splitOn ":" with
+  | ["R", _, _, cs] => if cs == "-" then [] else ((cs.splitOn "+").mapM parseSetCookie).getD []
+  | _ => []
 
 def parseJarOp (s : String) : Option JarOp :=
   match s.splitOn ":" with
@@ -312,8 +327,9 @@ def parseJarOp (s : String) : Option JarOp :=
   | ["R", h, p, cs] => do
     let h ← unPart h; let p ← unPart p
     if !hostOK h || !pathOK p || p.head? != some 47 then none
-    let scs ← if cs == "-" then some [] else (cs.splitOn "+").mapM parseSetCookie
-    some (.resp h p scs)
+    let items ← if cs == "-" then some [] else (cs.splitOn "+").mapM parseSetCookie
+    -- hooks.go parserResponseCookie + cookiejar.go parseCookiesFromResp on unparsable lines: Malformed.lean
+    some (respOf h p items)
   | ["G", h, p] => do
     let h ← unPart h; let p ← unPart p
     if !hostOK h || !pathOK p || p.head? != some 47 then none
@@ -330,12 +346,14 @@ def hxs (s : Bytes) : String := if s.isEmpty then "_" else toHex s
 def renderCookies (cs : List Cookie) : String :=
   if cs.isEmpty then "-" else "+".intercalate (cs.map fun c => hxs c.name ++ "~" ++ hxs c.value ++ "~" ++ hxs c.path)
 
-def renderJarObs : JarOp → JarObs → String
+/-- `failed`: the request came back with an error though the server answered (`re=`): the response hook could not
+    parse the last `Set-Cookie` -/
+def renderJarObs (failed : Bool) : JarOp → JarObs → String
   | .set .., _ => "s"
   | .setKV .., _ => "k"
   | .releaseJar, _ => "l"
   | _, .cookies cs => "g=" ++ renderCookies cs
-  | _, .header h => "r=" ++ hxs h
+  | _, .header h => (if failed then "re=" else "r=") ++ hxs h
   | _, .done => "?"
 
 def parseCookieList (s : String) : Option (List Cookie) :=
@@ -354,7 +372,8 @@ def parseJarObs (op : JarOp) (s : String) : Option JarObs :=
   | .set .. => if s == "s" then some .done else none
   | .setKV .. => if s == "k" then some .done else none
   | .releaseJar => if s == "l" then some .done else none
-  | .resp .. => if s.startsWith "r=" then (unPart ((s.drop 2).toString)).map .header else none
+  | .resp .. => if s.startsWith "r=" then (unPart ((s.drop 2).toString)).map .header
+                else if s.startsWith "re=" then (unPart ((s.drop 3).toString)).map .header else none
   | _ => if s.startsWith "g=" then (parseCookieList ((s.drop 2).toString)).map .cookies else none
 
 /-- the sentence fixes WHICH cookies a lookup returns / a request carries, not their order: `Get` results are
@@ -425,6 +444,27 @@ def expiredBetween (hist : List (Nat × JarOp)) : Bool :=
   let times := hist.map (·.1)
   exps.any fun x => times.any (· < x) && times.any (x < ·)
 
+/-- after a response with a malformed `Set-Cookie` from host key A: a store for ANOTHER host key, then a lookup -/
+def afterMalformedOtherHost : List String → Bool
+  | [] => false
+  | op :: rest =>
+    (match (respItemsOf op).any (·.malformed), (parseJarOp op).bind opKey with
+     | true, some a =>
+       let rec go : List String → Bool
+         | [] => false
+         | o :: os =>
+           (match parseJarOp o with
+            | some x => (match x, opKey x with
+              | .set .., some k => k != a
+              | .setKV .., some k => k != a
+              | .resp _ _ (_ :: _), some k => k != a
+              | _, _ => false) && os.any (fun l => match parseJarOp l with
+                  | some y => (lookupOf y).isSome
+                  | none => false)
+            | none => false) || go os
+       go rest
+     | _, _ => false) || afterMalformedOtherHost rest
+
 def handleJar (id opsS impl : String) : Except String Verdict := do
   let opStrs := if opsS == "-" then [] else opsS.splitOn ";"
   if impl == "slow" then
@@ -444,7 +484,7 @@ def handleJar (id opsS impl : String) : Except String Verdict := do
     | op :: ops, os, h =>
       if (tickOp op).isSome then "t" :: weave ops os h
       else match os, h with
-        | o :: os, e :: h => renderJarObs e.2 o :: weave ops os h
+        | o :: os, e :: h => renderJarObs (hookFails (respItemsOf op)) e.2 o :: weave ops os h
         | _, _ => []
     | _, _, _ => []
   let modelS := if opStrs.isEmpty then "-" else "|".intercalate (weave opStrs modelObs hist)
@@ -468,7 +508,12 @@ def handleJar (id opsS impl : String) : Except String Verdict := do
          tags := ["jar"] ++ (if nontriv then ["nt-jar"] else []) ++ (if k1 then ["k1-seen"] else []) ++
                  (if inRegion then ["k1-region"] else ["k1-free"]) ++ (if timed then ["nt-jar-timed"] else []) ++ (if ticked then ["nt-jar-ticked"] else []) ++
                  -- a ticked history in which a lookup found a cookie that a later lookup of the same host no longer finds
-                 (if ticked && expiredBetween hist then ["jar-expired-between-ops"] else []) }
+                 (if ticked && expiredBetween hist then ["jar-expired-between-ops"] else []) ++
+                 -- responses with an unparsable Set-Cookie (Malformed.lean)
+                 (if opStrs.any (fun o => (respItemsOf o).any (·.malformed)) then ["setcookie-malformed"] else []) ++
+                 (if opStrs.any (fun o => (respItemsOf o).any (·.malformed) && !hookFails (respItemsOf o)) then ["malformed-then-wellformed"] else []) ++
+                 (if opStrs.any (fun o => hookFails (respItemsOf o)) then ["malformed-last-request-fails"] else []) ++
+                 (if afterMalformedOtherHost opStrs then ["after-malformed-other-host"] else []) }
 
 /-! ### schedules -/
 
